@@ -473,6 +473,20 @@ def check_pack_rule(report, facts, rule, fn_name='resolve_instructions'):
                 raise AnalysisError('{}: call shape of the packing not understood: {}'.format(fn_name, show(pack)))
             fmt_v, code = parts[0], strip(parts[1])
             # (1) the packed value is the encoder's result, the encoder is looked up by the item's own mnemonic
+            if code[0] == 'sub' and strip(code[1])[0] in ('dict', 'lv', 'name') and strip(code[1]) != ('name', 'INSTRUCTIONS'):
+                # a word taken from a local memo table: the key must determine (mnemonic, operands) exactly
+                key = strip(code[2])
+                if key[0] == 'call' and key[1] in ('hash', 'id', 'len'):
+                    report.fail(Finding(rule, fn_name, node,
+                                        'the word packed for an instruction is taken from a table keyed by {}(...): different operand tuples can have the same key '
+                                        '(hash(-1) == hash(-2) in CPython), so two instructions share one encoding'.format(key[1]),
+                                        line=getattr(node, 'lineno', None)), instance='memo key')
+                    continue
+                exact = key[0] == 'tuple' and any(e == ('attr', item, 'name') for e in key[1]) and any(e == ('star', args_term) for e in key[1])
+                if exact:
+                    report.ok(rule, '{}: memoised word keyed by the exact (mnemonic, operands) tuple'.format(cls))
+                    continue
+                raise AnalysisError('{}: the word comes from a table keyed by {} (memo key not understood)'.format(fn_name, show(key)[:60]))
             if code[0] != 'callv' or strip(code[1])[0] != 'sub' or strip(code[1])[1] != ('name', 'INSTRUCTIONS'):
                 raise AnalysisError('{}: the value packed is not the result of a call of INSTRUCTIONS[...]: {}'.format(fn_name, show(code)))
             key = strip(code[1])[2]
